@@ -217,7 +217,7 @@ func checkC10(p *Prog, r *Report) {
 					if !ok || !isCallTo(c, "os.Getenv", "os.LookupEnv") {
 						return
 					}
-					for k := range p.fieldsOf(c.Call.Args[0], 0) {
+					for k := range p.fieldsOf(c.Call.Args[0], 2) {
 						if k == "core.BuildTarget.PassEnv" {
 							out[calleeName(&c.Call)] = true
 						}
@@ -231,7 +231,7 @@ func checkC10(p *Prog, r *Report) {
 			envFns = p.closure([]*ssa.Function{te}, 2, inRepoPkgs("core"))
 		}
 		if rh := p.Fn("build", "ruleHash"); rh != nil {
-			hashFns = withAnon(rh)
+			hashFns = p.closure([]*ssa.Function{rh}, 2, inRepoPkgs("build"))
 		}
 		er, hr := readers(envFns), readers(hashFns)
 		if len(er) == 0 || len(hr) == 0 {
